@@ -1,4 +1,22 @@
-(* Case runner and spec checker (T3) for C09 — stub. *)
+(* Case runner and spec checker (T3) for C09. *)
 From WI Require Import Lib.Base Lib.Info Model.State.
-Definition run_C09 (op : bytes) (input : arg) : arg := AL [].
-Definition check_C09 (op : bytes) (input impl : arg) : arg := AL [].
+Open Scope N_scope.
+
+(* input: list of (tag, observation of that input in a FRESH process); the model's prediction
+   for a history is the list of fresh observations (history independence) *)
+Definition run_C09 (op : bytes) (input : arg) : arg :=
+  AL (map (fun x => arg_nth 1 x) (arg_list input)).
+
+Fixpoint first_diff (k : nat) (a b : list arg) : option nat :=
+  match a, b with
+  | [], [] => None
+  | x :: a', y :: b' => if arg_eqb x y then first_diff (S k) a' b' else Some k
+  | _, _ => Some k
+  end.
+
+Definition check_C09 (op : bytes) (input impl : arg) : arg :=
+  match first_diff 0 (map (fun x => arg_nth 1 x) (arg_list input)) (arg_list impl) with
+  | None => AL []
+  | Some k => AB (bs "result depends on what was inspected before: position " ++ dec_of_N (N.of_nat k)
+                  ++ bs " of the history differs from the fresh-process result")
+  end.
